@@ -521,7 +521,50 @@ func projectField(base *Term, idx int, f *types.Var) *Term {
 
 // rangeLoopOf recognises the index value of go/ssa's lowering of `for i, x := range slice`:
 // idx = phi(-1, idx) + 1. It returns the phi.
+// countedIndex: ph is the counter of `for i := 0; i < len(x) [&& …]; i++`: φ(0, φ+1) in a block
+// that branches on φ < len(x). Returns x.
+func countedIndex(ph *ssa.Phi) ssa.Value {
+	zeros, incs := 0, 0
+	for _, e := range ph.Edges {
+		if k, ok := e.(*ssa.Const); ok && k.Value != nil && k.Value.ExactString() == "0" {
+			zeros++
+			continue
+		}
+		bo, ok := e.(*ssa.BinOp)
+		if !ok || bo.Op != token.ADD || bo.X != ssa.Value(ph) {
+			return nil
+		}
+		if one, ok := bo.Y.(*ssa.Const); !ok || one.Value == nil || one.Value.ExactString() != "1" {
+			return nil
+		}
+		incs++
+	}
+	if zeros != 1 || incs < 1 {
+		return nil
+	}
+	b := ph.Block()
+	br, ok := b.Instrs[len(b.Instrs)-1].(*ssa.If)
+	if !ok {
+		return nil
+	}
+	cmp, ok := br.Cond.(*ssa.BinOp)
+	if !ok || cmp.Op != token.LSS || cmp.X != ssa.Value(ph) {
+		return nil
+	}
+	c, ok := cmp.Y.(*ssa.Call)
+	if !ok {
+		return nil
+	}
+	if bi, ok := c.Common().Value.(*ssa.Builtin); !ok || bi.Name() != "len" {
+		return nil
+	}
+	return c.Common().Args[0]
+}
+
 func rangeLoopOf(idx ssa.Value) *ssa.Phi {
+	if ph, ok := idx.(*ssa.Phi); ok && countedIndex(ph) != nil {
+		return ph
+	}
 	bo, ok := idx.(*ssa.BinOp)
 	if !ok || bo.Op != token.ADD {
 		return nil
@@ -654,44 +697,81 @@ func (c *Ctx) fieldVersion(f *types.Var, u ssa.Instruction) string {
 		return false
 	}
 	if !ok {
+		// minimal SSA for the pseudo-variable "memory of field f": definitions are the entry and the
+		// mutating instructions; merge versions sit exactly on the iterated dominance frontier of the
+		// defining blocks; everywhere else a block inherits the version leaving its immediate dominator
 		n := len(c.fn.Blocks)
 		last := make([]string, n)
+		var defBlocks []*ssa.BasicBlock
 		for _, b := range c.fn.Blocks {
 			for _, ins := range b.Instrs {
 				if mutates(ins) {
 					last[b.Index] = "m" + c.instrID(ins)
 				}
 			}
+			if last[b.Index] != "" || b.Index == 0 {
+				defBlocks = append(defBlocks, b)
+			}
 		}
-		in = make([]string, n)
-		in[0] = "entry"
-		for changed := true; changed; {
-			changed = false
-			for _, b := range c.fn.Blocks {
-				if b.Index == 0 || strings.HasPrefix(in[b.Index], "merge") {
-					continue
-				}
-				res := ""
-				for _, p := range b.Preds {
-					out := last[p.Index]
-					if out == "" {
-						out = in[p.Index]
+		df := make([][]*ssa.BasicBlock, n)
+		for _, b := range c.fn.Blocks {
+			if len(b.Preds) < 2 {
+				continue
+			}
+			for _, p := range b.Preds {
+				for r := p; r != nil && r != b.Idom(); r = r.Idom() {
+					dup := false
+					for _, x := range df[r.Index] {
+						if x == b {
+							dup = true
+						}
 					}
-					if out == "" {
-						continue
+					if !dup {
+						df[r.Index] = append(df[r.Index], b)
 					}
-					if res == "" {
-						res = out
-					} else if res != out {
-						res = fmt.Sprintf("merge%d", b.Index)
-						break
-					}
-				}
-				if res != "" && in[b.Index] != res {
-					in[b.Index] = res
-					changed = true
 				}
 			}
+		}
+		merge := make([]bool, n)
+		work := append([]*ssa.BasicBlock{}, defBlocks...)
+		onWork := map[*ssa.BasicBlock]bool{}
+		for _, b := range work {
+			onWork[b] = true
+		}
+		for len(work) > 0 {
+			x := work[len(work)-1]
+			work = work[:len(work)-1]
+			for _, y := range df[x.Index] {
+				if !merge[y.Index] {
+					merge[y.Index] = true
+					if !onWork[y] {
+						onWork[y] = true
+						work = append(work, y)
+					}
+				}
+			}
+		}
+		in = make([]string, n)
+		var assign func(b *ssa.BasicBlock, inherited string)
+		assign = func(b *ssa.BasicBlock, inherited string) {
+			switch {
+			case b.Index == 0:
+				in[b.Index] = "entry"
+			case merge[b.Index]:
+				in[b.Index] = fmt.Sprintf("merge%d", b.Index)
+			default:
+				in[b.Index] = inherited
+			}
+			out := in[b.Index]
+			if last[b.Index] != "" {
+				out = last[b.Index]
+			}
+			for _, d := range b.Dominees() {
+				assign(d, out)
+			}
+		}
+		if n > 0 {
+			assign(c.fn.Blocks[0], "entry")
 		}
 		if c.fver == nil {
 			c.fver = map[string][]string{}
@@ -1172,9 +1252,16 @@ func (c *Ctx) nilDecided(v ssa.Value, depth int) (*Formula, bool) {
 			return FFalse, true
 		}
 		return c.nilDecidedCall(x, 0, depth)
+	case *ssa.Extract:
+		// (value, error) helpers: expanded too, except for the functions the rules name by their
+		// call atoms (the calculators, the taint-time reader, …), whose expansion would only
+		// inflate the path conditions the rules enumerate
+		if call, ok := x.Tuple.(*ssa.Call); ok {
+			if f := call.Common().StaticCallee(); f != nil && !c.p.noExpand[f] {
+				return c.nilDecidedCall(call, x.Index, depth)
+			}
+		}
 	}
-	// results of multi-value helpers (value, error) keep their atom: their error is tied to the
-	// computation of the value and expanding it only inflates the path conditions
 	return nil, false
 }
 
